@@ -1,4 +1,4 @@
-package sessx
+package scriptx
 
 import (
 	"context"
